@@ -382,7 +382,11 @@ impl<Leaf: MerkleLeaf, Root: MerkleRoot, Proof: MerkleProof> MerkleTree<Leaf, Ro
     /// to the given `hash` at the given `index` in the tree corresponding to the given `root`.
     #[must_use]
     fn check_hash_proof(hash: Hash, index: usize, root: &Root, proof: &Proof) -> bool {
-        proof.as_ref().len() <= EMPTY_ROOTS.len()
+        let len = proof.as_ref().len();
+        // the index has to lie within the tree spanned by the proof,
+        // otherwise `index + k * 2^len` would verify for the same leaf
+        len <= EMPTY_ROOTS.len()
+            && index >> len == 0
             && *Self::derive_hash_root(hash, index, proof).as_hash() == *root.as_hash()
     }
 
@@ -434,7 +438,8 @@ impl<Leaf: MerkleLeaf, Root: MerkleRoot, Proof: MerkleProof> MerkleTree<Leaf, Ro
     /// - a right-sibling entry is not the canonical empty-subtree root.
     #[must_use]
     fn derive_hash_root_last(hash: Hash, index: usize, proof: &Proof) -> Option<Root> {
-        if proof.as_ref().len() > EMPTY_ROOTS.len() {
+        let len = proof.as_ref().len();
+        if len > EMPTY_ROOTS.len() || index >> len != 0 {
             return None;
         }
         let mut i = index;
